@@ -2594,9 +2594,9 @@ class VM:
                 ):
                     raise JSTypeError(f"Cannot set property '{key_str}' on array")
             except ValueError:
-                pass  # Not a number, allow as string property
-            obj.set(key_str, value)
-        elif isinstance(obj, JSObject):
+                pass  # Not a number: an ordinary property, written like on any object
+
+        if isinstance(obj, JSObject):
             # Walk the chain like a read does: the nearest property decides.
             # A setter runs with obj as `this`; a data property (own or
             # inherited) or no property at all means: write on obj itself
